@@ -28,8 +28,9 @@ type jsession struct {
 	// previous one - like chunks `data[i:j]` of a producer's batch.  The disciplines only
 	// ever read `item[0:len]`; one that looks at `cap(item)` or appends to an input slice
 	// shows up as corrupted output / wrong batching.
-	arena    []int
-	arenaPos int
+	arena    [2][]int // two producers' batches, chunks of which arrive interleaved
+	arenaPos [2]int
+	arenaN   int
 	w        *px.Writer
 	kind     string
 	ver      string
@@ -98,7 +99,7 @@ func newJSession(w *px.Writer, kind, ver string, size uint, timeout time.Duratio
 	}
 	s.script = []string{fmt.Sprintf("jcfg %s %s %d %d %d", kind, ver, size, int64(timeout), nc)}
 	if kind == "unite" && size%2 == 0 {
-		s.arena = make([]int, 1<<16)
+		s.arena[0], s.arena[1] = make([]int, 1<<15), make([]int, 1<<15)
 	}
 	switch {
 	case kind == "join" && ver == "v2":
@@ -282,10 +283,11 @@ func (s *jsession) exec(op string) string {
 				xs = append(xs, v)
 			}
 		}
-		if s.arena != nil && s.arenaPos+len(xs) < len(s.arena) {
-			copy(s.arena[s.arenaPos:], xs)
-			xs = s.arena[s.arenaPos : s.arenaPos+len(xs)] // cap reaches to the end of the arena
-			s.arenaPos += len(xs)
+		if a := s.arenaN % 2; s.arena[0] != nil && s.arenaPos[a]+len(xs) < len(s.arena[a]) {
+			s.arenaN++
+			copy(s.arena[a][s.arenaPos[a]:], xs)
+			xs = s.arena[a][s.arenaPos[a] : s.arenaPos[a]+len(xs)] // cap reaches to the end of the arena
+			s.arenaPos[a] += len(xs)
 		}
 		s.inputs[id] = xs
 		s.consumed = append(s.consumed, append([]int(nil), xs...))
